@@ -36,6 +36,14 @@ def _binds(stmt, name):
     return False
 
 
+def _own_loop_target(mod, n, st):
+    """n is (part of) the target of a for loop nested inside st (not st itself): its binding only governs that loop's body"""
+    q = mod.parents.get(n)
+    while isinstance(q, (ast.Tuple, ast.List, ast.Starred)):
+        q = mod.parents.get(q)
+    return isinstance(q, (ast.For, ast.AsyncFor)) and q is not st and any(n is y for y in ast.walk(q.target))
+
+
 def findings(mod, func):
     """[(loop, name, reading_node)]"""
     out = []
@@ -64,6 +72,18 @@ def findings(mod, func):
                             if isinstance(st, (ast.For, ast.AsyncFor)) and nm in _targets(st.target):
                                 # rebinding loop: reads inside see the new binding; only the iterable could read the old one
                                 nodes = [n for n in ast.walk(st.iter) if isinstance(n, ast.Name) and n.id == nm]
+                            def _own_loop(n_):
+                                # the read sits in the body of a loop (inside st) that binds the name itself
+                                q_, child_ = mod.parents.get(n_), n_
+                                while q_ is not None:
+                                    if isinstance(q_, (ast.For, ast.AsyncFor)) and nm in _targets(q_.target) and not any(child_ is y for y in ast.walk(q_.iter)) and child_ is not q_.target:
+                                        return True
+                                    if q_ is st:
+                                        break
+                                    child_, q_ = q_, mod.parents.get(q_)
+                                return False
+                            nodes = [n for n in nodes if not (isinstance(n.ctx, ast.Load) and _own_loop(n))]
+                            nodes = [n for n in nodes if not (isinstance(n.ctx, ast.Store) and isinstance(mod.parents.get(n), (ast.For, ast.AsyncFor, ast.Tuple)) and _own_loop_target(mod, n, st))]
                             for n in nodes:
                                 if isinstance(n.ctx, ast.Load):
                                     # a comprehension that binds the name itself shadows it
